@@ -35,21 +35,29 @@ V(i) == CASE i = 1 -> [t |-> "int", v |-> 1]
           [] OTHER -> [t |-> "int", v |-> 7]
 NULL == [t |-> "NULL", v |-> 0]
 MARK == [t |-> "mark", v |-> 0]
-NameCode(n) == CASE n = "x" -> 101 [] n = "y" -> 102 [] n = "k" -> 103 [] n = "z" -> 104 [] OTHER -> 109
+NameCode(n) == CASE n = "x" -> 101 [] n = "y" -> 102 [] n = "k" -> 103 [] n = "z" -> 104
+                  [] n = "x/" -> 201 [] n = "y/" -> 202 [] OTHER -> 109
+Shadow(n) == IF n = "x" THEN "x/" ELSE IF n = "y" THEN "y/" ELSE n      \* an extra keyword named like a positional-only parameter
 NameVal(n) == [t |-> "str", v |-> NameCode(n)]
 TypeOf(x) == [t |-> "type", v |-> CASE x.t = "int" -> 1 [] x.t = "float" -> 2 [] x.t = "bool" -> 3
                                      [] x.t = "str" -> 4 [] OTHER -> 5]
 D == [t |-> "int", v |-> 2]       \* every default is 2: spelled out = V(2)
 
-P(n)  == [n |-> n, hd |-> FALSE, d |-> D]
-PD(n) == [n |-> n, hd |-> TRUE, d |-> D]
+P(n)  == [n |-> n, hd |-> FALSE, d |-> D, po |-> FALSE]
+PD(n) == [n |-> n, hd |-> TRUE, d |-> D, po |-> FALSE]
+PO(pp) == [pp EXCEPT !.po = TRUE]        \* the same parameter, positional-only
 \* the catalogue of signatures: id -> sig
+\* ids 0..47: no positional-only parameter; ids 48..95: the same shapes with the FIRST parameter positional-only
+\* (def f(x, /, ...)); ids 96..143: with ALL positional parameters positional-only (def f(x, y=2, /, ...))
 Sig(i) ==
-  LET pos == CASE (i % 4) = 0 -> <<>> [] (i % 4) = 1 -> <<P("x")>>
-               [] (i % 4) = 2 -> <<P("x"), PD("y")>> [] OTHER -> <<PD("x"), PD("y")>>
-      va  == ((i \div 4) % 2) = 1
-      ko  == CASE ((i \div 8) % 3) = 0 -> <<>> [] ((i \div 8) % 3) = 1 -> <<P("k")>> [] OTHER -> <<PD("k")>>
-      vk  == ((i \div 24) % 2) = 1
+  LET j   == i % 48
+      pom == i \div 48
+      pos0 == CASE (j % 4) = 0 -> <<>> [] (j % 4) = 1 -> <<P("x")>>
+               [] (j % 4) = 2 -> <<P("x"), PD("y")>> [] OTHER -> <<PD("x"), PD("y")>>
+      pos == [x \in 1..Len(pos0) |-> IF (pom = 1 /\ x = 1) \/ pom = 2 THEN PO(pos0[x]) ELSE pos0[x]]
+      va  == ((j \div 4) % 2) = 1
+      ko  == CASE ((j \div 8) % 3) = 0 -> <<>> [] ((j \div 8) % 3) = 1 -> <<P("k")>> [] OTHER -> <<PD("k")>>
+      vk  == ((j \div 24) % 2) = 1
   IN [pos |-> pos, va |-> va, ko |-> ko, vk |-> vk]
 \* ignore specifications: id -> ign
 Ign(i) == CASE i = 0 -> [names |-> {}, idx |-> {}, star |-> FALSE, dstar |-> FALSE]
@@ -95,7 +103,13 @@ Keygen(sig, ign, c) ==
       defs   == SelectSeq([x \in 1..np |-> [n |-> sig.pos[x].n, v |-> sig.pos[x].d, hd |-> sig.pos[x].hd]], LAMBDA it : it.hd)
                 \o SelectSeq([x \in 1..Len(sig.ko) |-> [n |-> sig.ko[x].n, v |-> sig.ko[x].d, hd |-> sig.ko[x].hd]], LAMBDA it : it.hd)
       od0    == [x \in 1..Len(defs) |-> [n |-> defs[x].n, v |-> defs[x].v]]
-      od1    == UpdAll(od0, c.k)
+      \* pinned behaviour (known finding "posonly_keyword_shadowed"): getfullargspec lists positional-only parameters
+      \* among the named ones, so the extra keyword x of f(1, x=2) [def f(x, /, **kw)] lands in the slot of the PARAMETER x
+      \* and is then overwritten by the positional value; idealised: it is kept under a name of its own
+      poN    == {sig.pos[x].n : x \in {y \in 1..np : IsPO(sig.pos[y])}}
+      ck     == IF "posonly_keyword_shadowed" \in Deviations THEN c.k
+                ELSE [x \in 1..Len(c.k) |-> IF c.k[x].n \in poN THEN [n |-> Shadow(c.k[x].n), v |-> c.k[x].v] ELSE c.k[x]]
+      od1    == UpdAll(od0, ck)
       idxI   == ign.idx \cup {x - 1 : x \in {y \in 1..np : named[y] \in ign.names}}
       nameI  == ign.names \cup {named[x] : x \in {y \in 1..np : (y - 1) \in ign.idx}}
       ua1    == [x \in 1..Len(c.p) |-> IF (x - 1) \in idxI THEN NULL ELSE c.p[x]]
@@ -108,7 +122,7 @@ Keygen(sig, ign, c) ==
       od2a   == UpdAll(od1, [x \in 1..Len(nulls) |-> [n |-> nulls[x], v |-> NULL]])
       od2    == IF "ignored_varkw_null_marker" \in Deviations THEN od2a
                 ELSE Remove(od2a, nameI \ params)
-      kwn    == {c.k[x].n : x \in 1..Len(c.k)}
+      kwn    == {ck[x].n : x \in 1..Len(ck)}
       konly  == Names(sig.ko)
       popped == IF ~ign.dstar THEN {}
                 ELSE IF "starstar_pops_kwonly" \in Deviations THEN kwn \ namedS
